@@ -1142,3 +1142,28 @@ def removes_own_staging(F, body, op):
         if not found:
             return False
     return True
+
+
+def chosen_by_bounded_search(fl, op, depth=0, seen=None):
+    """the value is (also) what a search over a bounded range hands back - `(0..N).map(name).find(free).unwrap_or_else(|| name(N))`,
+    fused or not: its origins include an iterator search call, or a counter drawn from a `Range` iterator"""
+    seen = seen if seen is not None else set()
+    if depth > 8 or op['k'] == 'const':
+        return False
+    b = fl.body
+    for o in fl.origins(op, mut_calls=True):
+        k = (o.kind, str(o.key), o.bb)
+        if k in seen or o.bb is None or o.kind not in ('call', 'mutcall'):
+            continue
+        seen.add(k)
+        c = str(o.key)
+        t = b.blocks[o.bb]['term']
+        if c in ('std::iter::Iterator::find', 'std::iter::Iterator::find_map', 'std::iter::Iterator::position'):
+            return True
+        if c == 'std::iter::Iterator::next' and t.get('args'):
+            if any(x.kind == 'agg' and str(x.key).startswith('std::ops::Range') for x in fl.origins(t['args'][0])):
+                return True
+        for a in t.get('args', []):
+            if chosen_by_bounded_search(fl, a, depth + 1, seen):
+                return True
+    return False
